@@ -135,7 +135,14 @@ func (in *Interp) tryConst(t *Term) (uint64, bool) {
 		return 0, false
 	}
 	v := in.model.Eval(t)
-	verdict, _ := in.solver.CheckWith(in.tab.Not(in.tab.Eq(t, in.tab.Const(t.w, v))), nil)
+	if dv := in.domLook(in.tab.Eq(t, in.tab.Const(t.w, v))); dv.single {
+		if dv.decided && dv.value {
+			in.tab.pins[t.id] = v
+			return v, true
+		}
+		return 0, false
+	}
+	verdict, _ := in.check(in.tab.Not(in.tab.Eq(t, in.tab.Const(t.w, v))), false)
 	if verdict == Unsat {
 		in.tab.pins[t.id] = v
 		return v, true
@@ -927,8 +934,26 @@ func (p *printer) quote(s value) value {
 				out = append(out, int64('\\'), int64('"'))
 			} else if in.truth(byteIs(in, x, '\\')) {
 				out = append(out, int64('\\'), int64('\\'))
+			} else if in.truth(in.simpBool(in.tab.Ult(x, in.tab.Const(8, 0x80)))) {
+				// control character: \a \b \f \n \r \t \v or \xNN
+				done := false
+				for _, sp := range []struct{ c, e byte }{{7, 'a'}, {8, 'b'}, {12, 'f'}, {10, 'n'}, {13, 'r'}, {9, 't'}, {11, 'v'}} {
+					if in.truth(byteIs(in, x, sp.c)) {
+						out = append(out, int64('\\'), int64(sp.e))
+						done = true
+						break
+					}
+				}
+				if !done {
+					hexd := func(n *Term) value {
+						return in.tab.Ite(in.tab.Ult(n, in.tab.Const(8, 10)), in.tab.Bin(OAdd, n, in.tab.Const(8, '0')), in.tab.Bin(OAdd, n, in.tab.Const(8, 'a'-10)))
+					}
+					hi := in.tab.Bin(OLShr, x, in.tab.Const(8, 4))
+					lo := in.tab.Bin(OBAnd, x, in.tab.Const(8, 15))
+					out = append(out, int64('\\'), int64('x'), hexd(hi), hexd(lo))
+				}
 			} else {
-				panic(cut("fmt-quote-symbolic-special-byte"))
+				panic(cut("fmt-quote-symbolic-nonascii-byte"))
 			}
 		}
 	}
